@@ -266,8 +266,12 @@ func (a *c09) helmertForm(info *types.Info, fn *types.Func) *helmertForm {
 	sc := newFnScope(info, fd.Body)
 	ps := paramVars(info, fd.Type)
 	// parameter-vector index of a local / expression
-	paramIdx := func(e ast.Expr) (int, bool) {
+	var paramIdxIn func(sc *fnScope, e ast.Expr, depth int) (int, bool)
+	paramIdxIn = func(sc *fnScope, e ast.Expr, depth int) (int, bool) {
 		e = unparen(e)
+		if depth > 4 {
+			return 0, false
+		}
 		if o := objOf(info, e); o != nil {
 			if ds := sc.defs[o]; len(ds) == 1 && ds[0] != nil {
 				e = unparen(ds[0])
@@ -275,45 +279,91 @@ func (a *c09) helmertForm(info *types.Info, fn *types.Func) *helmertForm {
 		}
 		if ix, ok := e.(*ast.IndexExpr); ok {
 			if k, ok := constInt(info, ix.Index); ok {
-				if sel, ok := unparen(ix.X).(*ast.SelectorExpr); ok {
+				base := unparen(ix.X)
+				if o := objOf(info, base); o != nil {
+					if ds := sc.defs[o]; len(ds) == 1 && ds[0] != nil {
+						base = unparen(ds[0])
+					}
+				}
+				if sel, ok := base.(*ast.SelectorExpr); ok {
 					if sl := info.Selections[sel]; sl != nil && sl.Kind() == types.FieldVal {
 						return int(k), true
 					}
 				}
 			}
 		}
+		// h.f where h := recv.helper() and helper returns T{f: p[k], …}
+		if sel, ok := e.(*ast.SelectorExpr); ok {
+			if sl := info.Selections[sel]; sl != nil && sl.Kind() == types.FieldVal {
+				if o := objOf(info, sel.X); o != nil {
+					if ds := sc.defs[o]; len(ds) == 1 && ds[0] != nil {
+						if call, ok := unparen(ds[0]).(*ast.CallExpr); ok {
+							if h := callee(info, call); h != nil && c.P.Decl(h) != nil {
+								hfd := c.P.Decl(h)
+								hsc := newFnScope(info, hfd.Body)
+								var out ast.Expr
+								ast.Inspect(hfd.Body, func(n ast.Node) bool {
+									if r, ok := n.(*ast.ReturnStmt); ok && len(r.Results) == 1 {
+										if lit, ok := unparen(r.Results[0]).(*ast.CompositeLit); ok {
+											for _, el := range lit.Elts {
+												if kv, ok := el.(*ast.KeyValueExpr); ok && src(kv.Key) == sel.Sel.Name {
+													out = kv.Value
+												}
+											}
+										}
+									}
+									return true
+								})
+								if out != nil {
+									return paramIdxIn(hsc, out, depth+1)
+								}
+							}
+						}
+					}
+				}
+			}
+		}
 		return 0, false
 	}
-	// the 7-parameter block: the innermost block reading index 6
-	var blk *ast.BlockStmt
-	ast.Inspect(fd.Body, func(n ast.Node) bool {
-		b, ok := n.(*ast.BlockStmt)
-		if !ok {
-			return true
-		}
-		for _, st := range b.List {
+	paramIdx := func(e ast.Expr) (int, bool) { return paramIdxIn(sc, e, 0) }
+	// the 7-parameter statement list: the innermost block or case body one of whose own statements
+	// (not a nested list) mentions datum parameter 6, directly or through a helper's struct
+	var blkList []ast.Stmt
+	var blkPos, blkEnd token.Pos
+	consider := func(list []ast.Stmt, pos, end token.Pos) {
+		for _, st := range list {
 			found := false
 			ast.Inspect(st, func(m ast.Node) bool {
-				if _, isBlk := m.(*ast.BlockStmt); isBlk {
+				switch m.(type) {
+				case *ast.BlockStmt, *ast.CaseClause:
 					return false
 				}
-				if ix, ok := m.(*ast.IndexExpr); ok {
-					if k, ok := constInt(info, ix.Index); ok && k == 6 {
+				if e, ok := m.(ast.Expr); ok {
+					if k, ok := paramIdx(e); ok && k == 6 {
 						found = true
 					}
 				}
-				return true
+				return !found
 			})
 			if found {
-				blk = b
+				blkList, blkPos, blkEnd = list, pos, end
 			}
+		}
+	}
+	ast.Inspect(fd.Body, func(n ast.Node) bool {
+		switch b := n.(type) {
+		case *ast.BlockStmt:
+			consider(b.List, b.Pos(), b.End())
+		case *ast.CaseClause:
+			consider(b.Body, b.Pos(), b.End())
 		}
 		return true
 	})
-	if blk == nil {
-		c.Unk("C09.R6", cons, fd.Pos(), "block reading the seventh datum parameter not found")
+	if blkList == nil {
+		c.Unk("C09.R6", cons, fd.Pos(), "statements using the seventh datum parameter not found")
 		return nil
 	}
+	blk := &ast.BlockStmt{List: blkList, Lbrace: blkPos, Rbrace: blkEnd - 1}
 	// flatten an expression into products; coordinate temporaries defined inside blk are expanded
 	var flat func(e ast.Expr, depth int) ([]hProd, bool)
 	env := map[types.Object][]hProd{} // current value of every local assigned inside the block, in statement order
@@ -409,6 +459,9 @@ func (a *c09) helmertForm(info *types.Info, fn *types.Func) *helmertForm {
 			}
 			v, ok := flat(e, 0)
 			if !ok {
+				if o := objOf(info, lhs[i]); o != nil && !isFloat64(o.Type()) {
+					continue // not a coordinate or parameter value (e.g. a parameter struct): nothing to track
+				}
 				return false
 			}
 			vals[i] = v
@@ -564,15 +617,12 @@ func (a *c09) threeParam(info *types.Info, fn *types.Func) int {
 	cons := c.P.FuncName(fn) + "#3-parameter"
 	ps := paramVars(info, fd.Type)
 	var blk *ast.BlockStmt
-	ast.Inspect(fd.Body, func(n ast.Node) bool {
-		b, ok := n.(*ast.BlockStmt)
-		if !ok || b == fd.Body {
-			return true
-		}
+	consider := func(list []ast.Stmt, pos, end token.Pos) {
 		maxK, reads := int64(-1), false
-		for _, st := range b.List {
+		for _, st := range list {
 			ast.Inspect(st, func(m ast.Node) bool {
-				if _, isBlk := m.(*ast.BlockStmt); isBlk {
+				switch m.(type) {
+				case *ast.BlockStmt, *ast.CaseClause:
 					return false
 				}
 				if ix, ok := m.(*ast.IndexExpr); ok {
@@ -589,7 +639,17 @@ func (a *c09) threeParam(info *types.Info, fn *types.Func) int {
 			})
 		}
 		if reads && maxK == 2 && blk == nil {
-			blk = b
+			blk = &ast.BlockStmt{List: list, Lbrace: pos, Rbrace: end - 1}
+		}
+	}
+	ast.Inspect(fd.Body, func(n ast.Node) bool {
+		switch b := n.(type) {
+		case *ast.BlockStmt:
+			if b != fd.Body {
+				consider(b.List, b.Pos(), b.End())
+			}
+		case *ast.CaseClause:
+			consider(b.Body, b.Pos(), b.End())
 		}
 		return true
 	})
